@@ -44,6 +44,9 @@ CHECKS = {
     "C11": dict(engine="E1+E5", cat="model_checking",
                 technique="explicit-state BFS over schema models (rewrite catalogue S at every site) x 4 ways of supplying the SDL x extend spelling; every model cooked by the real engine and its introspection answers compared with the expectation computed from the model",
                 text="5 seed models (kitchen sink, wrapper matrix, minimal, renamed roots, deprecations/nonIntrospectable) and every model within 1 (thorough 2) rewrite: add a type of each kind, wrap field types, arguments and input fields with defaults of every value kind (incl. strings needing escapes, null, lists, objects, enums), new implementers / union members, @deprecated with and without reason, @nonIntrospectable, custom directives with arguments and location sets, root changes. Each is supplied as string, file, list of files and directory tree (sub-directories, .sdl and .graphql), with and without `extend`. Compared: kinds, fields, args, wrapped types, default values (parsed back), enum values, interfaces, possible types, input fields, roots, directive definitions, deprecation flags/reasons, includeDeprecated true/false/default, hidden fields, __type(name:) for declared and near-miss unknown names, a nonIntrospectable schema."),
+    "C12": dict(engine="E1+E5", cat="model_checking",
+                technique="explicit-state enumeration: valid base schema models (seeds and all valid models within d rewrites) x catalogue of schema-violation rewrites (each checked rule x each site), certified invalid by a reference schema validator; create_engine must raise on every one",
+                text="For 3 seed models and every valid model within 1 (thorough 2) rewrite, each rule named in the statement is broken at every site: undefined type (object / interface field, wrapped, argument, via extend, input field, directive argument), non-input type (object, interface, union as argument plain and wrapped, input field), interface contract (missing field, incompatible type x3, missing / mistyped / extra required argument, obligation added by extend), implements object / enum / undefined, roots (type removed, schema block naming undefined query / mutation / subscription, default and arbitrary names), object without fields, union containing itself, duplicate enum values (definition, definition+extend, inside one extend), duplicate types / directives, 17 kinds of invalid extend; plus a scalar without implementation, each of 11 non-awaitable directive hooks, every single-token deletion of a small SDL and 13 malformed texts. The valid bases are required to build."),
     "C14": dict(engine="E3+E5", cat="model_checking",
                 technique="exhaustive enumeration of all event sequences up to length L over a 4-letter payload alphabet x subscription documents, each driven through the real subscribe() on a hand-stepped loop under all orders of source production and resolver completion; per-event comparison with the reference executor",
                 text="7 subscription documents (plain, alias, fragment, literal / variable / defaulted argument, scalar root) x ALL event sequences of length <= 3 (85; thorough 4: 341) over {well-formed payload, payload provoking a nullable-field error, payload provoking a non-null error, None} x all schedules of the source's production points and the resolvers' suspension points (+ <= 1 mid-run injection); 6 refused requests (validation, syntax, variable coercion, operation selection); thorough: two concurrent streams under all interleavings. Oracle: exactly one response per event, in order, each equal to the reference execution of the selection against that event; the source is started once with the spec-coerced arguments and the stream ends exactly when it ends; refused requests yield one errors-only response and never start the source."),
